@@ -241,6 +241,10 @@ def obligations(tier, seed):
         for h in holes:
             if h.kind not in ("name", "esc"):
                 h.L = L
+            if h.kind == "str" and h.quote == '"' and name in ("layer", "map"):
+                # C01 prints with double quotes: a double-quoted source string may contain single quotes anywhere (only the
+                # output quote character is excluded by the documentation)
+                h.other_quote = True
         popts = {"expand_includes": False} if name.startswith("schema.") else {}
         src, params, pre = rt_source(text, holes, idem=True, popts=popts)
         obs.append(Ob(name=f"C01-RT/{name}", source=src, pct=900, timeout=1000,
